@@ -127,7 +127,7 @@ def gen_case(g, cid, force_kind=None):
 
 
 def total_runs(tier):
-    return 350 if tier == 'quick' else 60000
+    return 350 if tier == 'quick' else 8000
 
 
 def make_plan(i, master, tier):
